@@ -19,7 +19,7 @@ def q3(p, u=U):
     return [q(c, u) for c in p]
 
 
-def _builder(res, ccw, start, dp=DP):
+def _builder(res, ccw, start, dp=DP, rot=None):
     from gscrib import GCodeBuilder
     g = GCodeBuilder(decimal_places=dp, line_endings="\\n")
     try:
@@ -31,6 +31,8 @@ def _builder(res, ccw, start, dp=DP):
     g.add_writer(rw.make())
     g.set_resolution(res)
     g.set_direction("counter" if ccw else "clockwise")
+    if rot is not None:
+        g.transform.rotate(rot)          # the work frame is rotated before anything moves: the machine starts at the image of `start`
     g.move(x=start[0], y=start[1], z=start[2])
     rw.take()
     return g, rw
@@ -83,6 +85,10 @@ def _call(g, req, rel):
             ab = tuple(p)
             if op in ("move", "rapid"):
                 getattr(g, op)(off if rel else ab)
+            elif op in ("move_part", "rapid_part"):
+                # only the axes that change are named (added after seed C11g: in a rotated frame the unnamed machine axes move too)
+                names = [n for i, n in enumerate("xyz") if p[i] != prev[i]]
+                getattr(g, op[:-5])(**{n: (off if rel else ab)["xyz".index(n)] for n in names})
             elif op in ("move_absolute", "rapid_absolute"):
                 getattr(g, op)(x=ab[0], y=ab[1], z=ab[2])
             elif op == "ctx_switch":
@@ -111,9 +117,15 @@ def _call(g, req, rel):
     raise KeyError(shape)
 
 
+def rotated(p, deg):
+    """Image of a work-frame point under transform.rotate(deg) about Z (computed here, not by the library)."""
+    a = math.radians(deg)
+    return [p[0] * math.cos(a) - p[1] * math.sin(a), p[0] * math.sin(a) + p[1] * math.cos(a), p[2]]
+
+
 def _run(req, res, rel):
     dp = req.get("dp", DP)
-    g, rw = _builder(res, req["ccw"], req["start"], dp)
+    g, rw = _builder(res, req["ccw"], req["start"], dp, req.get("rot"))
     if req.get("warm"):
         # the builder has a history: the same request was traced before with another resolution and direction, and the tool
         # was brought back (anything the tracer remembered from that run must not leak into this one)
@@ -150,6 +162,9 @@ def record(req):
     outA, la = _run(req, res, False)
     outR, lr = ("ok", []) if only else _run(req, res, True)
     outH, lh = ("ok", []) if only else _run(req, res / 2.0, False)
+    if req.get("rot") is not None:       # what the machine sees: every work-frame point of the request through the rotation
+        req = dict(req, start=rotated(req["start"], req["rot"]), target=rotated(req["target"], req["rot"]),
+                   controls=[rotated(p, req["rot"]) for p in req.get("controls", [])])
     ev = {"shape": req["shape"], "ccw": bool(req["ccw"]), "res": q(res, u), "start": q3(req["start"], u), "target": q3(req["target"], u),
           "centers": [q3(c, u) for c in req.get("centers", [req.get("center", req["start"])])], "r": q(req.get("r", 0.0), u),
           "turns": int(req.get("turns", 1)), "far": bool(req.get("far", False)), "len": q(req.get("len", 0.0), u),
@@ -276,10 +291,19 @@ def gen(rng, shape=None, allow_tiny=True):
         pts, prev, ops = [], s, []
         for _ in range(n):
             p = [round(prev[0] + rng.uniform(-20, 20), 2), round(prev[1] + rng.uniform(-20, 20), 2), round(prev[2] + rng.uniform(-4, 4), 2)]
+            op = rng.choice(["move", "rapid", "move_absolute", "rapid_absolute", "ctx_abs", "ctx_rel", "ctx_switch", "move_part", "rapid_part"])
+            if op.endswith("_part"):
+                keep = rng.choice([(0,), (1,), (2,), (0, 1), (0, 2)])
+                p = [p[i] if i in keep else prev[i] for i in range(3)]
             pts.append(p)
-            ops.append(rng.choice(["move", "rapid", "move_absolute", "rapid_absolute", "ctx_abs", "ctx_rel", "ctx_switch"]))
+            ops.append(op)
             prev = p
         req.update(target=pts[-1], controls=pts, ops=ops)
+        if rng.random() < 0.4:
+            # a rotated work frame; move_absolute() / rapid_absolute() are documented to BYPASS transforms (machine coordinates),
+            # so they are not part of "the same logical toolpath" there and are replaced by plain moves
+            req["rot"] = rng.choice([30.0, 45.0, 90.0, -60.0, 120.0, 200.0])
+            req["ops"] = [{"move_absolute": "move", "rapid_absolute": "rapid"}.get(o, o) for o in ops]
     elif shape == "parametric":
         # an elliptic / Lissajous-like user curve given in absolute coordinates, starting at or away from the tool position
         a, b = rng.uniform(5 * res, 25), rng.uniform(5 * res, 25)
